@@ -211,6 +211,9 @@ func runCase(c Case, x *h.Ctx) {
 	if st.Splits > 0 {
 		x.Label("split-attack")
 	}
+	if st.Stuffed > 0 {
+		x.Label("byzantine-votes-presented-for-other-validators-slots")
+	}
 	if st.ByzProposals > 0 {
 		x.Label("byz-proposal")
 	}
